@@ -132,7 +132,15 @@ impl<Db: Database> Storage<Db> {
     }
 
     fn get_impl<T: 'static>(&self, key: Key) -> Option<&T> {
-        let source_node = self.internal.get_source_node(key)?;
+        let Some(source_node) = self.internal.get_source_node(key) else {
+            // The absence of a source is also something the calling memoized function
+            // depends on: its result may change when the source is set later.
+            self.register_dependency_in_parent_memoized_fn(
+                NodeKind::AbsentSource(key),
+                self.internal.current_epoch,
+            );
+            return None;
+        };
 
         self.register_dependency_in_parent_memoized_fn(
             NodeKind::Source(key),
@@ -320,8 +328,8 @@ impl<Db: Database> InternalStorage<Db> {
         Index::new(self.source_nodes.push(Some(source_node)))
     }
 
-    /// Sets a source in the database. If there is an existing item and it does not equal
-    /// the new source, increment the current epoch.
+    /// Sets a source in the database. If there is no existing item, or there is one and it
+    /// does not equal the new source, increment the current epoch.
     fn set_source<T: DynEq>(&mut self, source: T, source_id: SourceId<T>) {
         match self.source_node_key_to_index.entry(source_id.key) {
             Entry::Occupied(occupied_entry) => {
@@ -350,8 +358,11 @@ impl<Db: Database> InternalStorage<Db> {
                 }
             }
             Entry::Vacant(vacant_entry) => {
+                // A memoized function may have observed that this source was absent
+                // (see `NodeKind::AbsentSource`), so this is a change like any other.
+                let next_epoch = self.current_epoch.increment();
                 let index = self.insert_source_node(SourceNode {
-                    time_updated: self.current_epoch,
+                    time_updated: next_epoch,
                     value: Box::new(source),
                 });
                 vacant_entry.insert(index);
